@@ -240,7 +240,10 @@ PRE_FACTORS = [F(1, 1000), F(1, 8), F(1), F(8), F(1000), F(1000), F(1000), F(10 
 # FAR pre-dies: the class-wide distance tolerance is min(W, H) * 1e-11 of the FIRST die of the process, so a die 10^9 .. 10^13
 # times larger leaves a tolerance of 1% .. 100 times the judged die's own extent (and one as much smaller a tolerance far
 # below one ulp of its coordinates); refinement itself reads no tolerance, so it is judged exactly as before
-PRE_FAR = [F(10) ** 9, F(10) ** 10, F(10) ** 10, F(10) ** 11, F(10) ** 11, F(10) ** 12, F(10) ** 12, F(10) ** 13]
+# (the judged die's constructor accepts an empty die while that tolerance stays below its shorter side: factors 10^10 ..
+# 5 * 10^10 are where a die is still built and the foreign tolerance is of the size of the pieces a refinement makes)
+PRE_FAR = [F(10) ** 9, F(10) ** 10, 2 * F(10) ** 10, 2 * F(10) ** 10, 5 * F(10) ** 10, 5 * F(10) ** 10, F(10) ** 11, F(10) ** 11,
+           F(10) ** 12, F(10) ** 13]
 
 
 def scale_rect(d, s):
@@ -283,26 +286,38 @@ def gen_scaled(rng):
 
 def gen_far(rng):
     """a small die (mostly empty: a die with regions is seldom accepted by its constructor under a tolerance of its own
-    size) refined once or through a short history after a die 10^9 .. 10^13 times larger (a quarter: smaller) was built"""
+    size) refined once or through a short history after a die 10^9 .. 10^13 times larger (a quarter: smaller) was built.
+    Mostly limits below 2 (where halving a compliant region gives a non-compliant one that must be split again) and, in
+    more than half of the cases, a count that drives the pieces below the foreign distance tolerance."""
     if rng.random() < 0.6:
         den = rng.choice([1, 1, 2, 4])
         W, H = F(rng.choice([1, 2, 3, 5, 8, 12, 30, 30, 48, 50, 64]), den), F(rng.choice([1, 2, 3, 5, 8, 12, 30, 30, 48, 50, 64]), den)
         regions, fixed = [], []
     else:
         W, H, regions, fixed = gen_layout(rng, maxk=2)
-    if rng.random() < 0.3:
-        ops = [["split", gen_r(rng), rng.choice([1, 2, 3, 4, 8])]]
+    rlim = lambda: rng.choice([1.42, 1.5, 1.5, 1.7]) if rng.random() < 0.75 else gen_r(rng)
+    hist = rng.random() < 0.3
+    if hist:
+        ops = [["split", rlim(), rng.choice([1, 2, 3, 4, 8])]]
         if rng.random() < 0.5:
             ops.append(["read"])
-        ops.append(["split", gen_r(rng), rng.choice([2, 5, 8, 16, 32])])
+        ops.append(["split", rlim(), rng.choice([2, 5, 8, 16, 32])])
         case = {"kind": "hist", "W": W, "H": H, "regions": regions, "fixed": fixed, "ops": ops,
                 "dieform": "text" if regions else rng.choice(["string", "dict", "text"]), "style": gen_style(rng)}
     else:
-        case = {"kind": "split", "W": W, "H": H, "regions": regions, "fixed": fixed, "r": gen_r(rng),
+        case = {"kind": "split", "W": W, "H": H, "regions": regions, "fixed": fixed, "r": rlim(),
                 "n": rng.choice([1, 2, 3, 4, 5, 8, 16, 32, 64]), "style": gen_style(rng)}
-    if rng.random() < 0.3:
-        case = scaled(case, rng.choice(SCALES_DY))
+    case = scaled(case, rng.choice(SCALES_DY + [F(1)] * 12))
     case["pre"] = gen_pre(rng, case, far=True)
+    # the tolerance the pre-die leaves (Die.__init__: min(W, H) * 10e-12), and the count at which pieces get that thin
+    eps = min(case["pre"]["W"], case["pre"]["H"]) / 10 ** 11
+    if eps < min(case["W"], case["H"]) and rng.random() < 0.7:
+        deep = int(min(F(1024), 2 * case["W"] * case["H"] / (eps * eps))) + 1
+        deep = min(1024, deep * rng.choice([1, 1, 2, 4]))
+        if hist:
+            case["ops"][-1][2] = min(deep, 128)
+        else:
+            case["n"] = deep
     return case
 
 
